@@ -64,18 +64,32 @@ DUP_COUNT = {'quick': 160, 'thorough': 3000}
 SLOW_KNOBS = dict(KNOBS, handshake_skew=[0.0, 0.3, 1.0, 2.0, 3.0], actions=KNOBS['actions'] + ['restart', 'restart'])
 
 
+# and a family where supvisors.restart / shutdown arrives while a restart_application (stop then start again) or a start
+# is still being carried out
+BUSY_KNOBS = {'stagger': [0.0, 1.0], 'n_min': 2, 'n_max': 4,
+              'apps': {'n_apps': (1, 3), 'n_progs': (1, 3), 'seq_max': 3, 'startsecs': (1, 5), 'stopwaitsecs': (3, 10),
+                       'per_instance_diff': 0.0, 'managed_p': 1.0, 'autorestart': ('false',)},
+              'behaviours': ['normal', 'slow_stop', 'slow_stop', 'stubborn'],
+              'actions': ['restart_application', 'restart_application', 'restart_process', 'start_application'],
+              'n_actions': [1, 2], 'gaps': [0.0, 0.3], 'closing_p': 1.0, 'closing_at_once': [0.05, 0.5, 1.5, 3.0],
+              'second_closing_p': 0.0, 'closing_crash_p': 0.0, 'fence': 'false', 'early_p': 0.0, 'closing_ticks': 120}
+BUSY_COUNT = {'quick': 120, 'thorough': 3000}
+
+
 def plan(tier, seed):
     return [{'seed': seed * 1000003 + i} for i in range(COUNT[tier])] + \
         [{'seed': seed * 1000003 + 700000 + i, 'family': 'stuck-stopping'} for i in range(STUCK_COUNT[tier])] + \
         [{'seed': seed * 1000003 + 600000 + i, 'family': 'duplicated-copy-lost-while-stopping'}
          for i in range(DUP_COUNT[tier])] + \
-        [{'seed': seed * 1000003 + 900000 + i, 'family': 'slow-handshake'} for i in range(COUNT[tier] // 8)]
+        [{'seed': seed * 1000003 + 900000 + i, 'family': 'slow-handshake'} for i in range(COUNT[tier] // 8)] + \
+        [{'seed': seed * 1000003 + 500000 + i, 'family': 'closing-while-busy'} for i in range(BUSY_COUNT[tier])]
 
 
 def run_case(case):
     tracker = Tracker()
     mon = StopSequenceMonitor(tracker)
-    run = Run(case, {'stuck-stopping': STUCK_KNOBS, 'duplicated-copy-lost-while-stopping': DUP_KNOBS, 'slow-handshake': SLOW_KNOBS}.get(
+    run = Run(case, {'stuck-stopping': STUCK_KNOBS, 'duplicated-copy-lost-while-stopping': DUP_KNOBS, 'slow-handshake': SLOW_KNOBS,
+                     'closing-while-busy': BUSY_KNOBS}.get(
         case.get('family'), KNOBS), [tracker, mon])
     violations = run.execute()
     nontrivial = mon.counters.get('order_comparisons', 0) > 0 or mon.counters.get('closing_runs', 0) > 0
